@@ -6,11 +6,13 @@ func (p *Parser) parseDocElement() (INode, *Error) {
 
 	switch t.Typ {
 	case TokenHTML:
-		n := &nodeHTML{token: t}
+		n := &nodeHTML{token: t, tpl: p.template}
 		left := p.PeekTypeN(-1, TokenSymbol)
 		right := p.PeekTypeN(1, TokenSymbol)
 		n.trimLeft = left != nil && left.TrimWhitespaces
 		n.trimRight = right != nil && right.TrimWhitespaces
+		n.afterBlockTag = left != nil && left.Val == "%}"
+		n.beforeBlockTag = right != nil && right.Val == "{%"
 		p.Consume() // consume HTML element
 		return n, nil
 	case TokenSymbol:
